@@ -19,7 +19,7 @@ VERUS_UNITS = {
     "frontend": ("units_frontend", ["C01", "C02", "C03", "C06", "C07", "C10"]),
     "proxy": ("units_proxy", ["C18", "C06", "C07", "C10", "C09", "C01"]),
     "misc": ("units_misc", ["C13", "C14", "C15", "C05"]),
-    "adapters": ("units_adapters", ["C02", "C14", "C11", "C18"]),
+    "adapters": ("units_adapters", ["C02", "C14", "C11", "C18", "C03", "C04"]),
     "gpu": ("units_gpu", ["C01", "C06", "C10"]),
     "daemon": ("units_daemon", ["C16"]),
     "compat": ("units_compat", ["C03"]),
@@ -57,9 +57,9 @@ CHARGE_RULES = [
     ("chunk", r'^recv_into_iovec_all$', r'decreases', ["C16"]),
     # a broken byte-transfer loop breaks every property that speaks about what reaches the peer / the handler
     ("chunk", r'^(send_iovec_all|get_sub_iovs_offset)$', r'.', ["C01", "C02", "C04", "C18"]),
-    ("chunk", r'^(recv_into_iovec_all|recv_into_iovec_real|get_sub_iovs_offset)$', r'.', ["C03", "C05", "C06", "C18"]),
+    ("chunk", r'^(recv_into_iovec_all|recv_into_iovec_real|get_sub_iovs_offset)$', r'.', ["C02", "C03", "C05", "C06", "C18"]),
     # recv_data reads request BODIES in the two request servers (not replies): C04 prologue, C05 backend server, C18 frontend-side server
-    ("chunk", r'^recv_data$', r'.', ["C04", "C05", "C18"]),
+    ("chunk", r'^recv_data$', r'.', ["C02", "C04", "C05", "C18"]),
     # (un)registration of a ring's kick descriptor goes to the owning worker with the ring's rank: C11's registration invariant
     # (Kani, one worker) relies on it for every other configuration
     ("rank", r'^update_vring_registration$', r'.', ["C11"]),
@@ -73,7 +73,8 @@ KANI_ALSO = {
     "c01_hdr_new_frontend": ["C04"], "c01_hdr_accessors": ["C04", "C06"],
     "c04_update_reply_ack_flag": ["C03"],
     # header validity (version 1, no reserved bits, known code, size <= 0x1000) is the acceptance side of the wire format
-    "c20_hdr_valid_frontend": ["C01", "C05"], "c20_hdr_valid_backend": ["C01"],
+    "c20_hdr_valid_frontend": ["C01", "C05", "C03", "C06"], "c20_hdr_valid_backend": ["C01", "C06", "C18"],
+    "c11_set_vring_call_step": ["C14"],
     # the Verus units stub send_message / send_message_with_payload / send_header with `proved-by:` these harnesses: every property
     # whose proof goes through a written frame depends on them (fast: a few seconds each)
     "c08_send_message_frame": ["C01", "C02", "C03", "C04", "C18"], "c08_send_header_frame": ["C01", "C02", "C04"],
